@@ -101,6 +101,18 @@ RULES = {
 def check(ctx):
     prop, tier, seed = ctx['prop'], ctx['tier'], ctx['seed']
     res = runpass.cached_pass(tier, seed)
+    res = dict(res, runs=list(res['runs']))
+    # property-specific extra runs (not shared): GP tasks are rare in the common pass
+    if prop == 'C12':
+        import runlevel
+        extra = [c for c in runlevel.gen_configs('thorough', seed + 77) if c['kind'] == 'GP'][:40 if tier == 'quick' else 120]
+        drv = common.Driver()
+        try:
+            for c in extra:
+                c = dict(c, hook='observer')
+                res['runs'].append(runpass.analyse_run(c, drv, props=['C12']))
+        finally:
+            drv.close()
     issues = collect(prop, res)
     runs = res['runs']
     nt = [r for r in runs if nontrivial(prop, r)]
